@@ -1211,6 +1211,41 @@ func c02(run *ev.Run, tier string) {
 			}
 		}
 	}
+	// a release of exactly 0 is a release: every format states it
+	for _, f := range formats {
+		s := base()
+		s.Release = "0"
+		run.Case("release-zero|"+f, true)
+		if p := buildDecode(s, f, "release 0"); p != nil {
+			var got string
+			switch f {
+			case "rpm":
+				got, _ = p.Rpm.Hdr.Str(dec.RpmTagRelease)
+				got = "-" + got
+			case "apk", "archlinux":
+				got, _ = p.MetaGet("pkgver")
+			default:
+				got, _ = p.MetaGet("Version")
+			}
+			atomic.AddInt64(&cmps, 1)
+			if !strings.HasSuffix(got, map[string]string{"apk": "-r0"}[f]) || (f != "apk" && !strings.HasSuffix(got, "-0")) {
+				run.Violate("C02/"+f+"/version/release-zero", map[string]any{"configured_release": "0", "in_package": got})
+			}
+		}
+	}
+	// a description with one line beyond a mebibyte: nothing after it is lost
+	for _, f := range []string{"deb", "ipk"} {
+		s := base()
+		s.Description = "synopsis\n" + strings.Repeat("x", (1<<20)+4096) + "\nlast line of the description"
+		run.Case("description-line-beyond-one-mebibyte|"+f, true)
+		if p := buildDecode(s, f, "description line > 1 MiB"); p != nil {
+			got, _ := p.MetaGet("Description")
+			atomic.AddInt64(&cmps, 1)
+			if !strings.Contains(got, "last line of the description") || strings.Count(got, "x") < (1<<20)+4096 {
+				run.Violate("C02/"+f+"/description-truncated/line-beyond-one-mebibyte", map[string]any{"configured_bytes": len(s.Description), "in_package_bytes": len(got), "tail": ev.Short(got[max(0, len(got)-60):], 80)})
+			}
+		}
+	}
 	// part 2c: a build that failed half-way leaves nothing behind for the next one
 	afterFailedBuilds(run, "C02", func(f string, raw []byte, p *dec.Package) []problem {
 		var ps []problem
